@@ -60,6 +60,11 @@ class Run(RunBase):
         ids = {self.pool[x]["id"] for x in op.get("keys", []) if x in self.pool}
         if k == "create_from_list":
             return all(x in self.pool for x in op["keys"]) and len(ids) == len(op["keys"]) and len(ids) > 0
+        if k == "add_clash":
+            # a lanelet whose id is already in the network: documented to be refused with a warning, nothing changes
+            return all(x in self.pool for x in op["keys"]) and len(op["keys"]) > 0 and \
+                any(self.pool[x]["id"] in self.present for x in op["keys"]) and \
+                len({self.pool[x]["id"] for x in op["keys"]}) == len(op["keys"])
         if k in ("add_one", "scenario_add"):
             if k == "scenario_add" and op["key"] in self.pool and self.pool[op["key"]]["id"] in self.sc_known:
                 return False  # the scenario's id pool still holds the id (freeing ids is C09's business)
@@ -111,10 +116,13 @@ class Run(RunBase):
         if len(points) == 1:
             points = list(points) * 2  # Lanelet.contains_points wants a polyline (>= 2 points)
         try:
-            res = self.net.find_lanelet_by_position([np.array(p, dtype=float) for p in points])
+            res_raw = self.net.find_lanelet_by_position([np.array(p, dtype=float) for p in points])
         except Exception as e:  # noqa
             raise Violation(self._sig("find_lanelet_by_position-raised"),
                             f"find_lanelet_by_position raised {type(e).__name__}: {e} after route {self.route}")
+        res = [list(x) for x in res_raw]
+        for x in res_raw:
+            x.append(-7)  # the caller may do what it likes with the returned lists: later answers must not care
         for p, got in zip(points, res):
             truth = {i: geom.point_in_ring(poly, ring, p) for i, (poly, ring) in polys.items()}
             missing, extra = geom.compare_sets(got, truth)
@@ -150,7 +158,10 @@ class Run(RunBase):
         if raw["t"] == "group" or (self.route == "empty" and not self.present):
             return  # find_lanelet_by_shape accepts Rectangle / Circle / Polygon only
         try:
-            got = self.net.find_lanelet_by_shape(shape)
+            got_raw = self.net.find_lanelet_by_shape(shape)
+            got = list(got_raw)
+            got_raw.append(-7)  # scribble on the returned list (see _check_points)
+            got_raw.reverse()
         except Exception as e:  # noqa
             raise Violation(self._sig("find_lanelet_by_shape-raised"),
                             f"find_lanelet_by_shape({raw['t']}) raised {type(e).__name__}: {e}")
@@ -333,6 +344,26 @@ class Run(RunBase):
             self._expect(s)
         return "ok"
 
+    def _op_add_clash(self, op):
+        specs = [self.pool[k] for k in op["keys"]]
+        self.faults["F-reject"] += 1
+
+        def f():
+            if op.get("via") == "network" or len(specs) > 1:
+                other = LaneletNetwork.create_from_lanelet_list([build.build_lanelet(s) for s in specs])
+                self.net.add_lanelets_from_network(other)
+            else:
+                self.net.add_lanelet(build.build_lanelet(specs[0]))
+        self._route("add-with-id-clash", f)
+        via_network = op.get("via") == "network" or len(specs) > 1
+        for s in specs:
+            if s["id"] in self.present:
+                if via_network:
+                    break  # add_lanelets_from_network stops adding at the first lanelet it has to refuse
+                continue
+            self._expect(s)
+        return "ok"
+
     def _op_remove(self, op):
         self._route("remove_lanelet", lambda: self.net.remove_lanelet(op["id"]))
         self.present.pop(op["id"])
@@ -476,7 +507,8 @@ def _fmt(raw):
 
 # ------------------------------------------------------------------ clients
 def _builder(rng, run, cfg):
-    keys = sorted(run.pool)
+    all_keys = sorted(run.pool)
+    keys = [k for k in all_keys if k.startswith("l")]  # "x" keys reuse ids and are only offered as clashes
     while True:
         r = rng.pick(cfg["routes"])
         free = [k for k in keys if run.pool[k]["id"] not in run.present]
@@ -487,6 +519,18 @@ def _builder(rng, run, cfg):
             yield {"op": r, "key": rng.pick(cand)} if cand else None
         elif r == "add_from_network" and free:
             yield {"op": r, "keys": rng.sample(free, rng.randint(1, len(free)))}
+        elif r == "add_clash" and run.present:
+            used = [k for k in keys if run.pool[k]["id"] in run.present]
+            clash = [k for k in all_keys if k.startswith("x") and run.pool[k]["id"] in run.present]
+            cand = clash or used
+            chosen = [rng.pick(cand)]
+            if rng.chance(0.5) and free:
+                extra = rng.pick(free)
+                if run.pool[extra]["id"] != run.pool[chosen[0]]["id"]:
+                    chosen.append(extra)
+                    rng.shuffle(chosen)
+            op = {"op": "add_clash", "keys": chosen, "via": rng.choice(["network", "single"])}
+            yield op if run.enabled(op) else None
         elif r == "remove" and run.present:
             yield {"op": r, "id": rng.pick(sorted(run.present))}
         elif r == "cut_out" and run.present:
@@ -533,7 +577,7 @@ def _restarter(rng, run, cfg):
         yield {"op": "restart", "how": rng.pick(cfg["restart_kinds"])}
 
 
-ROUTES = ["create_from_list", "add_one", "scenario_add", "add_from_network", "remove", "cut_out"]
+ROUTES = ["create_from_list", "add_one", "scenario_add", "add_from_network", "remove", "cut_out", "add_clash"]
 RESTARTS = ["deepcopy", "deepcopy_net", "pickle", "pickle_net", "xml", "xml_net", "pb"]
 
 
@@ -547,7 +591,7 @@ class C06(Property):
                        "restart-deepcopy_net", "restart-pickle_net", "point-inside", "point-in-two-lanelets",
                        "shape-query-rect", "shape-query-circ", "shape-query-poly", "shape-meets-several-lanelets",
                        "obstacle-mapping-checked", "shape-query-via-translate_rotate",
-                       "shape-query-via-rotate_translate_local", "coincident-lanelets"]
+                       "shape-query-via-rotate_translate_local", "coincident-lanelets", "route:add-with-id-clash"]
     assumptions = [
         "geometric truth comes from crkit.geom (raw vertices / parameters, shapely predicates on geometry built there) "
         "with a don't-care band: clearance or penetration below 1e-7, and for circles distances in [0.99 r, r] "
@@ -571,6 +615,15 @@ class C06(Property):
         lanelets = {}
         for j, la in enumerate(net["lanelets"]):
             lanelets[f"l{j}"] = la
+        # lanelets that reuse an id of the pool with OTHER geometry (only ever offered to a network that already
+        # holds that id: the network must refuse them and keep answering for its own lanelet)
+        far = gen.gen_network(rng, rows=1, cols=rng.randint(1, 2), ids=gen.IdAlloc(rng, 900, 990), signs=False,
+                              lights=False, intersections=False, stop_lines=False, overlap=False, types=False,
+                              extra_links=False)
+        for j, la in enumerate(far["lanelets"]):
+            twin_of = rng.pick(net["lanelets"])
+            lanelets[f"x{j}"] = {"id": twin_of["id"], "left": la["left"], "center": la["center"], "right": la["right"],
+                                 "pred": [], "succ": []}
         if rng.chance(0.25):
             # two lanelets with different ids and coincident geometry (legal: overlapping lanelets)
             src = rng.pick(net["lanelets"])
